@@ -42,6 +42,9 @@ checks = {
  "C04": ("exploration", "bounded-exhaustive enumeration of small packages (every reference template x base declaration, chains of two, all permutations of the declaration units, several file layouts) translated by the real goose; structural oracle on the parsed output",
          "For every enumerated package: one definition per declaration under the documented name, names distinct, every same-package identifier a body mentions is defined earlier in the file, self-recursion through the rec binder.",
          "dependencies read off the emitted text; packages of at most 4 units (6 for the interface-conversion shape)", "2 C04"),
+ "C03": ("model_checking", "stateless exploration of all interleavings up to a preemption bound on both sides under one controlled scheduler: the generated Go program (sync and go statements routed to the scheduler) and goose's real output on the GooseLang reference interpreter; outcome-set comparison",
+         "For every program of the concurrent grammar: every result Go produces within the bound is produced by some explored GooseLang interleaving; schedule-independent Go results are reproduced by every explored GooseLang interleaving with no deadlock, stuck thread or data race.",
+         "reference interpreter semantics for locks / condition variables / wait groups / Fork (stutter-free waits); preemption bound; logical time", "2 C03"),
 }
 todo = {}
 man = {
